@@ -124,6 +124,10 @@ fn main() {
     // --- leg 2b: a remote goes away with requests still in flight and a remote with the same
     // routing id attaches again (an agent-to-agent link keeps its id across reconnects)
     let reattach: Vec<Vec<(usize, Step)>> = vec![
+        // a remote that loses its framing: the other remote's links are served as before
+        vec![(0, link("v")), (1, link("v")), (1, sync("m")), (1, Step::Garbage), (0, cmd("v", "5")), (0, act(&["@upd{k:1,v:1}"])), (0, sync("m"))],
+        vec![(1, link("s")), (1, Step::Garbage), (0, sync("v")), (0, act(&["@push(1)", "@setv(6)"])), (0, unlink("v"))],
+        vec![(1, link("s")), (0, sync("v")), (0, act(&["@push(1)", "@setv(6)"])), (0, unlink("v"))],
         vec![(0, link("v")), (0, sync("m")), (0, Step::Detach), (1, Step::Attach(0)), (1, act(&["@upd{k:1,v:1}"])), (1, act(&["@setv(5)"])), (1, sync("m"))],
         vec![(0, sync("v")), (0, Step::Detach), (1, Step::Attach(0)), (1, cmd("v", "3")), (1, link("v")), (1, cmd("v", "4"))],
         vec![(0, link("s")), (0, sync("m")), (0, act(&["@push(1)"])), (0, Step::Detach), (1, Step::Attach(0)), (1, act(&["@push(2)", "@upd{k:1,v:1}"])), (1, sync("m"))],
